@@ -292,6 +292,7 @@ fn assert_found(locs: &Vec<BlockChunk>, t: usize) {
 kproof! {
     /// K06a: zlib header 78 01 | 78 5E | 78 9C | 78 DA behind 2 arbitrary bytes
     #[kani::stub(crate::preflate_container::decompress_deflate_stream, oracle_decompress)]
+    #[kani::stub(std::vec::Vec::push, crate::verif_common::stub_vec_push_any)]
     fn k06a_find_zlib() {
         const N: usize = 2 + 2 + S_LEN + 2;
         let mut f: [u8; N] = kani::any();
@@ -312,6 +313,7 @@ kproof! {
 kproof! {
     /// K06b: gzip header with every combination of FEXTRA / FNAME / FCOMMENT / FHCRC (small fields)
     #[kani::stub(crate::preflate_container::decompress_deflate_stream, oracle_decompress)]
+    #[kani::stub(std::vec::Vec::push, crate::verif_common::stub_vec_push_any)]
     fn k06b_find_gzip() {
         const N: usize = 2 + 10 + 4 + 3 + 3 + 2 + S_LEN + 2;
         let mut f: [u8; N] = kani::any();
@@ -352,6 +354,7 @@ kproof! {
 kproof! {
     /// K06c: ZIP local file header, method 8, name/extra lengths 0..=2
     #[kani::stub(crate::preflate_container::decompress_deflate_stream, oracle_decompress)]
+    #[kani::stub(std::vec::Vec::push, crate::verif_common::stub_vec_push_any)]
     fn k06c_find_zip() {
         const N: usize = 2 + 30 + 2 + 2 + S_LEN + 2;
         let mut f: [u8; N] = kani::any();
@@ -459,7 +462,7 @@ pub static mut FIRST_ZLIB_ACCEPT: bool = false;
 pub static mut DEC_CALLS: u32 = 0;
 /// CONTRACT of next_signature: None (index untouched), or Some(kind) with the new index in old..=len-2.
 /// Kind and position of every hit are symbolic.  At most SIG_MAX hits per file (the stated bound).
-fn contract_next_signature(src: &[u8], index: &mut usize) -> Option<Signature> {
+pub(crate) fn contract_next_signature(src: &[u8], index: &mut usize) -> Option<Signature> {
     // the call counter is advanced unconditionally and first, so that it stays concrete under symbolic execution
     let c = unsafe { let c = SIG_CALLS; SIG_CALLS += 1; c };
     if c >= unsafe { SIG_MAX } { return None; }
@@ -471,10 +474,14 @@ fn contract_next_signature(src: &[u8], index: &mut usize) -> Option<Signature> {
     *index = i;
     Some(match k { SIG_ZLIB => Signature::Zlib(0), SIG_ZIP => Signature::ZipLocalFileHeader, SIG_GZIP => Signature::Gzip, _ => Signature::IDAT })
 }
-static BIG_PLAIN: [u8; 1025] = [0u8; 1025];
-/// decompress_deflate_stream contract without heap traffic: a rejected analysis is Err or an Ok whose plaintext is
-/// below the threshold (empty Vec: no allocation); an accepted one carries 1025 bytes of plaintext that live in a
-/// static (the harness never drops accepted results)
+/// 1025 bytes of plaintext nobody reads: a real heap allocation (so that a native replay may drop it), not initialised
+fn big_plain() -> Vec<u8> {
+    let mut v: Vec<u8> = Vec::with_capacity(1025);
+    unsafe { v.set_len(1025); }
+    v
+}
+/// decompress_deflate_stream contract with little heap traffic: a rejected analysis is Err or an Ok whose plaintext is
+/// below the threshold (empty Vec: no allocation); an accepted one carries 1025 bytes of (uninitialised) plaintext
 pub fn contract_decompress_light(compressed_data: &[u8], _verify: bool, _loglevel: u32) -> core::result::Result<DecompressResult, crate::preflate_error::PreflateError> {
     let dc = unsafe { let d = DEC_CALLS; DEC_CALLS += 1; d };
     let forced = dc == 0 && unsafe { FIRST_ZLIB_ACCEPT };
@@ -482,7 +489,7 @@ pub fn contract_decompress_light(compressed_data: &[u8], _verify: bool, _logleve
         kani::assume(!compressed_data.is_empty());
         let cs: usize = kani::any();
         kani::assume(cs >= 1 && cs <= compressed_data.len());
-        let plain = unsafe { Vec::from_raw_parts(BIG_PLAIN.as_ptr() as *mut u8, 1025, 1025) };
+        let plain = big_plain();
         return Ok(DecompressResult { plain_text: plain, prediction_corrections: Vec::new(), compressed_size: cs, parameters: dummy_params() });
     }
     if compressed_data.is_empty() || kani::any() {
@@ -490,10 +497,10 @@ pub fn contract_decompress_light(compressed_data: &[u8], _verify: bool, _logleve
     }
     let cs: usize = kani::any();
     kani::assume(cs >= 1 && cs <= compressed_data.len());
-    // (the PNG arm thresholds on the chunk length, not on the plaintext, and may drop an accepted result: no static there)
+    // (the PNG arm thresholds on the chunk length, not on the plaintext: no need for a long plaintext there)
     let big: bool = kani::any() && !unsafe { IDAT_CALL };
     unsafe { IDAT_CALL = false; }
-    let plain = if big { unsafe { Vec::from_raw_parts(BIG_PLAIN.as_ptr() as *mut u8, 1025, 1025) } } else { Vec::new() };
+    let plain = if big { big_plain() } else { Vec::new() };
     Ok(DecompressResult { plain_text: plain, prediction_corrections: Vec::new(), compressed_size: cs, parameters: dummy_params() })
 }
 pub fn contract_parse_zip_light(contents: &[u8]) -> Result<(usize, DecompressResult)> {
